@@ -321,12 +321,18 @@ func init() {
 									case "maps", "golang.org/x/exp/maps":
 										use("maps." + s.Sel.Name) // Keys/Values/All… yield map order
 									case "os", "syscall", "runtime":
-										if s.Sel.Name == "Getenv" || s.Sel.Name == "Getpid" || s.Sel.Name == "Hostname" || s.Sel.Name == "NumCPU" || s.Sel.Name == "NumGoroutine" {
+										if s.Sel.Name == "Getenv" || s.Sel.Name == "LookupEnv" || s.Sel.Name == "Environ" || s.Sel.Name == "Getpid" || s.Sel.Name == "Hostname" || s.Sel.Name == "Getwd" ||
+											s.Sel.Name == "UserHomeDir" || s.Sel.Name == "TempDir" || s.Sel.Name == "NumCPU" || s.Sel.Name == "GOMAXPROCS" || s.Sel.Name == "NumGoroutine" || s.Sel.Name == "GOOS" || s.Sel.Name == "GOARCH" {
 											use("env." + s.Sel.Name)
 										}
 									case "time":
-										if s.Sel.Name == "Now" || s.Sel.Name == "Since" || s.Sel.Name == "Until" {
+										switch s.Sel.Name {
+										case "Now", "Since", "Until":
 											use("time")
+										case "Unix", "UnixMilli", "UnixMicro", "Local", "LoadLocation", "LoadLocationFromTZData", "Parse", "ParseInLocation":
+											// time.Unix* return times in time.Local; Parse resolves zone abbreviations against Local:
+											// anything rendered from them depends on the process's time zone
+											use("time." + s.Sel.Name)
 										}
 									}
 									return true
@@ -335,6 +341,13 @@ func init() {
 							// map order through reflection or sync.Map
 							if sel, ok := p.TypesInfo.Selections[s]; ok {
 								recv := typeStr(sel.Recv())
+								// rendering / re-zoning a time value: the text depends on the value's Location
+								if recv == "time.Time" && sel.Kind() == types.MethodVal {
+									switch s.Sel.Name {
+									case "String", "Format", "AppendFormat", "Local", "In", "Zone", "Location", "GoString":
+										use("timefmt." + s.Sel.Name)
+									}
+								}
 								if (recv == "reflect.Value" && (s.Sel.Name == "MapKeys" || s.Sel.Name == "MapRange")) ||
 									((recv == "sync.Map" || recv == "*sync.Map") && s.Sel.Name == "Range") {
 									use("maporder." + s.Sel.Name)
